@@ -560,6 +560,11 @@ def _causes(case, obs):
                 causes.append(("ambiguous", a, i))
     for hi, h in enumerate(obs.hook):
         if h["msg"].command == "pause" and not ms[hi]:
+            if h["msg"].kwargs.get("defer"):
+                # a deferred in-plan pause in a non-resumable section only matters if a checkpoint follows (F3, C08)
+                if any(h2["msg"].command == "checkpoint" for h2 in obs.hook[hi + 1 :]):
+                    causes.append(("ambiguous", hi, None))
+                continue
             causes.append(("failed_pause", hi, None))
     for y in obs.plog.yields:
         if isinstance(y.get("thrown"), FailedPause):
